@@ -627,6 +627,26 @@ structure RegExt where
   now : Nat
   saveResult : Str → Option Err
 
+/-! ### cmd/keymasterd `webauthnFinishRegistration`, from `checkAuth` to the response -/
+
+/-- effects: a refusal, the credential added to the loaded profile, the profile SAVED for a user, success -/
+inductive WaRegEffect
+  | fail (status : Nat)
+  | addCredential
+  | save (user : Str)
+  | success
+deriving DecidableEq, Repr
+
+/-- externals: `checkAuth`, `IsAdminUserAndU2F` (translated separately), the profile load (profile, found, FROM CACHE,
+error), the library's `FinishRegistration`, adding the credential, the save -/
+structure WaRegExt where
+  checkAuth : Nat → authInfo × Option Err
+  adminAndU2F : Str → Nat → Bool
+  loadProfile : Str → Unit × Bool × Bool × Option Err
+  finishRegistration : Nat × Option Err
+  addResult : Option Err
+  saveResult : Str → Option Err
+
 /-! ### cmd/keymasterd `consumeLoginChallenge` -/
 
 /-- `localUserData`: the pending challenge of a user; the two challenge pointers are compared by identity (numbers
